@@ -307,6 +307,26 @@ func timeSigs(part, parts int) {
 					}
 				}
 			}
+			// one or both clock arguments 0: each zero stands for 8 on its own
+			for _, cc := range [][2]int{{0, 0}, {0, 32}, {24, 0}, {0, 8}, {8, 0}, {0, 255}, {1, 0}} {
+				ctx.Eval()
+				m := smf.MetaTimeSig(uint8(num), uint8(den), uint8(cc[0]), uint8(cc[1]))
+				w1, w2 := cc[0], cc[1]
+				if w1 == 0 {
+					w1 = 8
+				}
+				if w2 == 0 {
+					w2 = 8
+				}
+				var g [4]uint8
+				ok := m.GetMetaTimeSig(&g[0], &g[1], &g[2], &g[3])
+				if !wellFormed("MetaTimeSig", []int{num, den, cc[0], cc[1]}, m, 0x58, []byte{byte(num), byte(e), byte(w1), byte(w2)}) {
+					continue
+				}
+				if !ok || int(g[0]) != num || int(g[1]) != den || int(g[2]) != w1 || int(g[3]) != w2 {
+					report("accessor:MetaTimeSig:zero-clock-argument", "MetaTimeSig", []int{num, den, cc[0], cc[1]}, m, fmt.Sprintf("got %v ok=%v", g, ok))
+				}
+			}
 			// MetaMeter (clock fields default to 8)
 			ctx.Eval()
 			m := smf.MetaMeter(uint8(num), uint8(den))
@@ -425,7 +445,7 @@ func main() {
 		fmt.Println("meta case:", m["constructor"], m["args"], "-", m["what"], "(pure function of its arguments; re-run ./run C15 quick)")
 		return
 	}
-	ctx.Assume("time-signature clock fields are non-zero (zero is documented shorthand for 8); flat/sharp flag not judged for 0 accidentals; tempo payload within 1 of the 24-bit value")
+	ctx.Assume("a zero time-signature clock argument is the documented shorthand for 8, each argument on its own; flat/sharp flag not judged for 0 accidentals; tempo payload within 1 of the 24-bit value")
 	ctx.Jobs("texts", 16, func(j int) { texts(j, 16) })
 	ctx.Jobs("numeric", 1, func(int) { numeric(); reuse() })
 	ctx.Jobs("huge", 1, func(int) { huge() })
